@@ -5,13 +5,19 @@ import json, os, subprocess, sys, glob, re, time
 V = os.path.dirname(os.path.dirname(os.path.abspath(__file__)))
 EXTRA = {'C02-viterbi-star-unit-cycle': ['C02', 'C08', 'C09'], 'C09-viterbi-star-unit-cycle': ['C09', 'C08', 'C02'], 'C12-viterbi-node-order-pointers': ['C12', 'C04'],
          'C12-jlog-unfiltered-rules': ['C12', 'C03'], 'C11-copy-alias-on-repattern': ['C11', 'C02', 'C18'], 'C02-copy-alias-on-pattern-growth': ['C02', 'C18'],
-         'C08-bool-and-default-or': ['C08', 'C06'], 'C13-equal-overlap-not-counted': ['C13', 'C06']}
+         'C08-bool-and-default-or': ['C08', 'C06'], 'C13-equal-overlap-not-counted': ['C13', 'C06'],
+         'C04-viterbi-single-pointer-raw-argmax': ['C04', 'C07'], 'C12-unsqueeze-order-by-variable': ['C12', 'C07'], 'C12-early-exit-rhs-count': ['C12', 'C02'],
+         'C01-scc-stale-onstack': ['C01', 'C19'], 'C05-decomposition-forest-per-component': ['C05', 'C10'], 'C11-jlog-stale-rule-list': ['C11', 'C03'],
+         'C11-linear-jacobian-overwrite': ['C11', 'C02'], 'C08-broadcast-new-axis-order': ['C08', 'C06'], 'C08-sumaxis-antiunify-after': ['C08', 'C06'],
+         'C03-transpose-before-flatten': ['C03', 'C09'], 'C10-quickbb-sep-filter-before-reduction': ['C10'], 'C04-derive-skip-external-nodes': ['C04', 'C15']}
 res_path = os.path.join(V, 'seeded', 'RESULTS.json')
 results = json.load(open(res_path)) if os.path.exists(res_path) else {}
 names = sorted(os.path.basename(d) for d in glob.glob(os.path.join(V, 'seeded', '*')) if os.path.isdir(d))
 sel = sys.argv[1:]
 for name in names:
     if sel and not any(name.startswith(s) for s in sel):
+        continue
+    if not sel and name in results:
         continue
     pid = name.split('-')[0]
     pids = EXTRA.get(name, [pid])
